@@ -5,6 +5,9 @@
    property holds for every kill instant, sync and async persistence; the repaired rule (per-job low-water mark)
    holds unconditionally; every mechanism switch (seek-min, commit-after-ack, skip-by-own-stream, strict skip) is
    shown necessary by a counterexample, which is a kill/restart history.
+   FileDiscovery.tla (name-based notifications vs rotation: a job is filed under the inode of the descriptor that was
+   opened) and TruncCheck.tla (size observed after the position, read-only) specify the two places where genuine defects
+   were found and repaired (D22, D21); their mutants are the code before the repairs.
 2. Those histories, the D3 history and TLC-simulated histories (with rotation by rename placed at random) are
    performed on the REAL file input in a child process that is really killed (SIGKILL) and restarted on the same
    directory; a truncation family runs in one process.  TLC judges the recorded two-run histories (FileInputMon).
@@ -49,6 +52,15 @@ def run(ctx):
                           timeout=1200, deadlock=False, name="FileInput/residual sync=%s" % sync)
         ctx.tlc_expect_ok("FileInput", "FileInput_base.cfg", overrides={"D_SeekMinSaved": "FALSE", "NLines": n, "SyncMode": sync},
                           timeout=1200, deadlock=False, name="FileInput/repaired-rule sync=%s" % sync)
+    # discovery of files under rotation, and truncation detection next to a concurrent reader/writer (the code as repaired:
+    # D22, D21; the old behaviours are the mutants, which TLC must reject)
+    ctx.tlc_expect_ok("FileDiscovery", "FileDiscovery_ok.cfg", timeout=600, deadlock=False, name="FileDiscovery/faithful")
+    ctx.tlc_expect_ok("TruncCheck", "TruncCheck_ok.cfg", timeout=600, deadlock=False, name="TruncCheck/faithful")
+    for mod, cfg, inv in (("FileDiscovery", "FileDiscovery_mut.cfg", "KeyIsOpenedFile"), ("TruncCheck", "TruncCheck_mut_stale.cfg", "TruncatedOnlyIfShrunk"),
+                          ("TruncCheck", "TruncCheck_mut_rewrite.cfg", "OffsetIsPosition")):
+        r = ctx.tlc(mod, cfg, timeout=300, deadlock=False, name="%s/mutant %s" % (mod, cfg))
+        if r.ok or r.violated != inv:
+            raise vlib.Infra("spec mutant %s of %s is not rejected by %s (violated=%s)" % (cfg, mod, inv, r.violated))
     scs = []
     k = 1
     streams, hist = hist_of(d3.trace[-1][1])
